@@ -4,8 +4,9 @@ classes by harness/paramalg.py: see DESIGN.md 3.6 and 5/C16.
 
 1. design: TLC enumerates the expression trees (through Next, one operator at a time) and checks the clauses
    EvalIsPointwise, TimeDepIffSomeOperand, EqIsStructural, NestingTotal, ClearCacheTotal, PickleRoundTrip,
-   SolverAcceptsComposite on the object-level state machine; the mechanism of the pinned classes and a cache keyed
-   without the time must violate them (design canaries).
+   SolverAcceptsComposite on the object-level state machine; the mechanism of the pinned classes, a cache keyed
+   without the time and a cache keyed by CPython's hash of the time / of the keyword values (hash(-1) = hash(-2)) must
+   violate them (design canaries).
 2. spec -> code: every enumerated tree (printed by TLC with the values the property expects) is built with the real
    classes through the Python operators and exercised: ==, calls at scalar and array arguments in every argument
    form, _clear_cache, pickle / cloudpickle round trip with the copy exercised again; trees of the solver domain are
@@ -17,7 +18,7 @@ from harness import core, paramalg as pa, runfamily as rf
 
 LEVEL = "model_checking"
 
-ACTIONS = ["Grow", "Twin", "Ship", "Konst", "Build", "MShipDeliver", "MIntDeliver", "MDeliver", "MCall", "MEq", "Clear", "MPickle", "Unpickle", "MCallCopy", "MClearCopy", "MSolve"]
+ACTIONS = ["Grow", "Twin", "Ship", "Konst", "Build", "MShipDeliver", "MIntDeliver", "MDeliver", "MCall", "MRetune", "MEq", "MClear", "MPickle", "Unpickle", "MCallCopy", "MClearCopy", "MSolve"]
 
 
 def neighbours(tree, prev):
@@ -72,6 +73,8 @@ def run(ctx):
                            (dict(pa.MECH, MClearByOperand=False), "SolverAcceptsComposite", 1),
                            (dict(pa.MECH, MPickleSlots=False), "PickleRoundTrip", 1),
                            (dict(pa.MECH, MCacheKeyTime=False), "EvalIsPointwise", 1),
+                           (dict(pa.MECH, MCacheKeyHashT=True), "EvalIsPointwise", 1),
+                           (dict(pa.MECH, MCacheKeyHashK=True), "EvalIsPointwise", 1),
                            (dict(pa.MECH, MReuseEqual=True), "EvalIsPointwise", 1),
                            (dict(pa.MECH, MCacheKeyBuffer=True), "EvalIsPointwise", 1),
                            (dict(pa.MECH, MRampClamp=True), "EvalIsPointwise", 1),
@@ -152,6 +155,47 @@ def run(ctx):
         raise core.MachineryFailure(f"C16: only {nredeliver} re-deliveries of the same memory with other content")
     if not any(e["ev"] == "call" and e["fill"] for tr in traces for e in tr["ev"]):
         raise core.MachineryFailure("C16: no call ever filled an operand cache — ClearCacheTotal would be vacuous")
+    # calls that answer at a negative time right after a call at ANOTHER negative time in the same argument form, on an object
+    # (original / unpickled copy) whose operand cache holds something: per ordered pair of times
+    npair = {}
+    for tr in traces:
+        prev = {}
+        for e in tr["ev"]:
+            if e["ev"] == "unpickle":
+                prev.pop("copy", None)
+            if e["ev"] != "call":
+                continue
+            p = prev.get(e["who"])
+            if (p is not None and p[0] == e["f"] and p[1] < 0 and e["t"] < 0 and p[1] != e["t"] and p[2]
+                    and e["fill"] and e["obs"]["arr"]["k"] == "v"):
+                k = f"{e['who']}: t={p[1] / pa.Q:g} then t={e['t'] / pa.Q:g}"
+                npair[k] = npair.get(k, 0) + 1
+            prev[e["who"]] = (e["f"], e["t"], bool(e["fill"]) and e["obs"]["arr"]["k"] == "v")
+    ctx.cov["calls_at_a_negative_time_after_another_negative_time_on_caching_expressions"] = dict(sorted(npair.items()))
+    # answered calls right after the keyword argument of the time-dependent leaves was edited in place, the call before the
+    # edit having been answered in the same form at the same time: per ordered pair of keyword values
+    nkw = {}
+    for tr in traces:
+        c_prev = c_now = None
+        for e in tr["ev"]:
+            if e["ev"] == "retune" and e["n"]:
+                c_now = e["c"]
+            elif e["ev"] == "call" and e["who"] == "orig" and c_now is not None:
+                if e["fill"] and e["obs"]["arr"]["k"] == "v" and (e["f"], e["t"]) == pa.RETUNE_CALL:
+                    if c_prev is not None and c_prev != c_now:
+                        k = f"c={c_prev / pa.Q:g} then c={c_now / pa.Q:g}"
+                        nkw[k] = nkw.get(k, 0) + 1
+                    c_prev = c_now
+                else:
+                    c_prev = None
+    ctx.cov["calls_after_the_keyword_argument_of_a_caching_operand_was_edited_in_place"] = dict(sorted(nkw.items()))
+    need = 15 if quick else 1000
+    for k in ("orig: t=-1 then t=-2", "orig: t=-2 then t=-1", "copy: t=-2 then t=-1"):
+        if npair.get(k, 0) < need:
+            raise core.MachineryFailure(f"C16: vacuous: only {npair.get(k, 0)} answered calls '{k}' on expressions with a caching operand")
+    for k in ("c=-1 then c=-2", "c=-2 then c=-1"):
+        if nkw.get(k, 0) < need:
+            raise core.MachineryFailure(f"C16: vacuous: only {nkw.get(k, 0)} answered calls '{k}' on expressions with a caching operand")
 
     # ---- 3. code -> spec: TLC validates what the real objects did
     norm = [pa.normalise(t) for t in traces]
@@ -200,8 +244,10 @@ def run(ctx):
 
     canary(mut_value, "value shifted by 1/64")
     canary(lambda n: pa.corrupt_flag(norm[n]), "time_dependent flag flipped")
-    ctx.cov["rule"] = ("one case = one expression tree enumerated by TLC, built with the real classes and exercised (==, 12 array deliveries into re-used / viewed / temporary memory, 28 calls "
-                       "over 4 argument forms x scalar/array arguments x times, _clear_cache, two pickle round trips with the copy "
+    ctx.cov["rule"] = ("one case = one expression tree enumerated by TLC, built with the real classes and exercised (==, 12 array deliveries into re-used / viewed / temporary memory, "
+                       f"{4 * len(pa.ORIG_CALLS)} calls over 4 argument forms x scalar/array arguments x times (zero, positive, negative, "
+                       "fractional, repeated and in both orders), "
+                       f"{len(pa.RETUNES)} in-place edits of a keyword argument of the time-dependent leaves each followed by 4 calls, _clear_cache, two pickle round trips with the copy "
                        "exercised) or handed to the real solver; non-trivial = at least one operator; distinct = distinct trees "
                        "(+ distinct trees handed to the solver)")
     ctx.assume("values are compared on the exact evaluation domain (dyadics in units of 1/64, |v| <= 512); where the model's value "
